@@ -36,6 +36,22 @@ type c05D struct {
 	forms   map[int64]int
 	alines  [][]int64 // addrsForDial cases (wire kind 6) recorded by call
 	ipIdx   map[string]int64
+	// callers with a DialPeer timeout / a context deadline of their own: the instant
+	// min(call time + dial timeout, deadline) at which the call has to end (wire stimulus 8)
+	expiry map[int64]c05Expiry
+	lag    time.Duration // virtual time that has passed but is not recorded yet (0 or 1 ns)
+}
+
+type c05Expiry struct {
+	at     time.Time
+	dt, dd int64
+}
+
+// The DialPeer timeout and the caller's own deadline of a call, off the 1 ms grid on which
+// the ranking delays, the clock advances and hence every other timer of a case lie, and
+// different for every caller: k ms + 500 us + c us.
+func c05OffGrid(c int64, ms int) time.Duration {
+	return time.Duration(ms)*time.Millisecond + 500*time.Microsecond + time.Duration(c%400)*time.Microsecond
 }
 
 func (h *c05D) observe() {
@@ -101,16 +117,39 @@ func c05DialGoroutines() int64 {
 	return cnt
 }
 
-func (h *c05D) call(c int64, sim, fdir bool) {
+func (h *c05D) call(c int64, sim, fdir bool) { h.callT(c, sim, fdir, 0, -1) }
+
+// callT: a call with the DialPeer timeout dt (0: one hour, never reached in a case) on a context
+// whose own deadline is dd after the call (dd < 0: none).
+func (h *c05D) callT(c int64, sim, fdir bool, dt, dd time.Duration) {
 	ctx, cancel := context.WithCancel(context.Background())
 	h.cancels[c] = cancel
+	t0 := time.Now()
+	if dd >= 0 {
+		ctx, _ = context.WithDeadline(ctx, t0.Add(dd))
+	}
+	if dt > 0 {
+		e := c05Expiry{at: t0.Add(dt), dt: int64(dt), dd: -1}
+		if dd >= 0 {
+			e.dd = int64(dd)
+			if dd < dt {
+				e.at = t0.Add(dd)
+			}
+		}
+		h.expiry[c] = e
+	} else {
+		dt = time.Hour
+		if dd >= 0 {
+			h.expiry[c] = c05Expiry{at: t0.Add(dd), dt: int64(dt), dd: int64(dd)}
+		}
+	}
 	if fdir {
 		ctx = network.WithForceDirectDial(ctx, "c05")
 	}
 	if sim {
 		ctx = network.WithSimultaneousConnect(ctx, true, "c05")
 	}
-	ctx = network.WithDialPeerTimeout(ctx, time.Hour)
+	ctx = network.WithDialPeerTimeout(ctx, dt)
 	// what addrsForDial + rankAddrs answer for this request now (the gater is not left
 	// armed while the harness itself calls addrsForDial)
 	h.gater.mu.Lock()
@@ -149,7 +188,10 @@ func (h *c05D) call(c int64, sim, fdir bool) {
 			k = 3
 		case ctx.Err() != nil && errors.Is(err, ctx.Err()):
 			k = 2
+		case errors.Is(err, context.DeadlineExceeded) && !time.Now().Before(t0.Add(dt)):
+			k = 2 // the dial timeout has ended: the deadline error of the call's own context
 		}
+		cancel()
 		h.mu.Lock()
 		h.drets = append(h.drets, [2]int64{c, k})
 		h.mu.Unlock()
@@ -192,11 +234,60 @@ func (h *c05D) release() {
 	h.observe()
 }
 
+// the earliest instant in (now, now+d] at which the call of a caller still inside has to end
+func (h *c05D) nextExpiry(d time.Duration) (int64, c05Expiry, bool) {
+	lim := time.Now().Add(d)
+	best, found := int64(0), false
+	for c, e := range h.expiry {
+		if !h.waiting[c] {
+			delete(h.expiry, c)
+			continue
+		}
+		if e.at.After(lim) {
+			continue
+		}
+		if !found || e.at.Before(h.expiry[best].at) || (e.at.Equal(h.expiry[best].at) && c < best) {
+			best, found = c, true
+		}
+	}
+	return best, h.expiry[best], found
+}
+
+// Virtual time advances by d.  When the DialPeer timeout or the context deadline of a caller
+// that is still inside lies on the way, the clock is stopped 1 ns before that instant
+// (stimulus 2), the 1 ns step across it is recorded as stimulus 8 for that caller, and the 1 ns
+// is added to the next recorded advance (nothing else is scheduled within it: see c05OffGrid).
 func (h *c05D) advance(d time.Duration) {
-	time.Sleep(d)
-	synctest.Wait()
-	h.line = append(h.line, 2, int64(d))
-	h.observe()
+	for {
+		c, e, ok := h.nextExpiry(d)
+		if !ok {
+			break
+		}
+		rem := e.at.Sub(time.Now())
+		if rem > 1 {
+			time.Sleep(rem - 1)
+			synctest.Wait()
+			h.line = append(h.line, 2, int64(rem-1+h.lag))
+			h.lag = 0
+			h.observe()
+		}
+		if rem >= 1 {
+			time.Sleep(1)
+			h.lag++
+			d -= rem
+		}
+		synctest.Wait()
+		delete(h.expiry, c)
+		h.line = append(h.line, 8, c, e.dt, e.dd)
+		h.observe()
+	}
+	if d > 0 || h.lag > 0 {
+		time.Sleep(d)
+		synctest.Wait()
+		h.line = append(h.line, 2, int64(d+h.lag))
+		h.lag = 0
+		h.observe()
+	}
 }
 
 func (h *c05D) result(id int64, kind int) {
@@ -229,6 +320,7 @@ func (h *c05D) backoffExpires() {
 }
 
 func (h *c05D) cancelCaller(c int64) {
+	delete(h.expiry, c)
 	h.cancels[c]()
 	synctest.Wait()
 	h.line = append(h.line, 4, c)
@@ -336,6 +428,7 @@ func c05DialPeerRandom(out *verifh.Out, r *verifh.Rand, size int) {
 	next := int64(1)
 	maxWait := 0
 	sawConn, sawErr, sawCancelOthers := false, false, false
+	timedCase := r.Chance(1, 3)
 	for i := 0; i < size; i++ {
 		ws := h.waitingIDs()
 		if len(ws) > maxWait {
@@ -345,7 +438,30 @@ func c05DialPeerRandom(out *verifh.Out, r *verifh.Rand, size int) {
 		k := r.Intn(100)
 		switch {
 		case (k < 30 && len(ws) < 6) || (len(ws) == 0 && k < 70):
-			h.call(next, r.Chance(1, 6), r.Chance(1, 6))
+			if timedCase && r.Chance(1, 2) {
+				// the DialPeer timeout of the call and the caller's own deadline: none, earlier, later, equal
+				dt := c05OffGrid(next, []int{40, 300, 700, 1500, 3000}[r.Intn(5)])
+				dd := time.Duration(-1)
+				switch r.Intn(4) {
+				case 1:
+					dd = c05OffGrid(next, []int{10, 100, 250}[r.Intn(3)])
+					if dd >= dt {
+						dd = dt / 2
+					}
+					out.Cover("dialpeer.op.call_with_context_deadline_before_dial_timeout")
+				case 2:
+					dd = dt + time.Duration(1+r.Intn(15))*time.Second
+					out.Cover("dialpeer.op.call_with_context_deadline_after_dial_timeout")
+				case 3:
+					dd = dt
+					out.Cover("dialpeer.op.call_with_context_deadline_equal_to_dial_timeout")
+				default:
+					out.Cover("dialpeer.op.call_with_dial_timeout_only")
+				}
+				h.callT(next, r.Chance(1, 6), r.Chance(1, 6), dt, dd)
+			} else {
+				h.call(next, r.Chance(1, 6), r.Chance(1, 6))
+			}
 			next++
 			out.Cover("dialpeer.op.call")
 		case k < 50:
@@ -395,7 +511,7 @@ func c05DialPeerRandom(out *verifh.Out, r *verifh.Rand, size int) {
 func newC05D(fdl, ppl int64) *c05D {
 	BackoffBase, BackoffMax = 24*time.Hour, 48*time.Hour
 	h := &c05D{c05W: newC05Swarm(), cancels: map[int64]context.CancelFunc{}, waiting: map[int64]bool{},
-		kinds: map[int64]int{}, forms: map[int64]int{}, ipIdx: map[string]int64{}}
+		kinds: map[int64]int{}, forms: map[int64]int{}, ipIdx: map[string]int64{}, expiry: map[int64]c05Expiry{}}
 	h.s.limiter = newDialLimiterWithParams(h.s.dialAddr, int(fdl), int(ppl))
 	h.line = []int64{5, fdl, ppl}
 	return h
@@ -682,5 +798,31 @@ func c05DialPeerBackoffExpires(out *verifh.Out) {
 	h.advance(2 * time.Second)
 	h.finishCase()
 	out.Cover("dialpeer.backoff_expires_second_caller")
+	h.end(out)
+}
+
+// The DialPeer timeout and the caller's own deadline: every address hangs; four callers with a
+// dial timeout only, a context deadline later than / earlier than / equal to the dial timeout,
+// next to a caller without either who keeps waiting for the shared attempts.  Each of the four
+// has to return at min(call time + dial timeout, deadline); the shared dials go on.
+func c05DialPeerTimeouts(out *verifh.Out, joinLate bool) {
+	h := newC05D(4, 4)
+	h.setAddrs([]int{0, 2}, []time.Duration{0, 250 * time.Millisecond})
+	h.call(1, false, false)
+	h.callT(2, false, false, c05OffGrid(2, 300), -1)
+	h.callT(3, false, false, c05OffGrid(3, 300), 15*time.Second) // deadline later than the dial timeout
+	if joinLate {
+		h.advance(100 * time.Millisecond)
+	}
+	h.callT(4, false, false, c05OffGrid(4, 700), c05OffGrid(4, 100)) // deadline earlier
+	h.callT(5, false, false, c05OffGrid(5, 500), c05OffGrid(5, 500)) // equal
+	h.advance(2 * time.Second)
+	h.cancelCaller(1)
+	// a single caller whose later deadline must not replace the dial timeout
+	h.callT(6, false, false, c05OffGrid(6, 40), time.Minute)
+	h.advance(time.Second)
+	h.advance(2 * time.Second)
+	h.finishCase()
+	out.Cover("dialpeer.corpus_dial_timeout_and_context_deadline")
 	h.end(out)
 }
